@@ -249,3 +249,11 @@ Proof.
         (conj pin_repair_write_lenient_binding (conj pin_repair_write_repair_gates (conj pin_repair_cli_fix_option
         (conj pin_repair_cli_repair_gates pin_repair_src_validate_parameters))))))).
 Qed.
+
+(* ---- source-text pins (generated by harness/pinsets.py) ---- *)
+(* every function of these modules is, text for text (comments and docstrings excluded), the one the models of this
+   property were written against and validated against: harness/translate/srcdigest_t.py, Src/Pin_*.v *)
+From OV Require Import Gen.SrcDigestGen Src.Pin_core_repair Src.Pin_core_repair_log Src.Pin_core_constraints Src.Pin_mcp_validate Src.Pin_mcp_write Src.Pin_cli_main.
+Theorem C11_pin_source_text :
+  src_core_repair_pinned /\ src_core_repair_log_pinned /\ src_core_constraints_pinned /\ src_mcp_validate_pinned /\ src_mcp_write_pinned /\ src_cli_main_pinned.
+Proof. exact (conj src_core_repair_pinned_ok (conj src_core_repair_log_pinned_ok (conj src_core_constraints_pinned_ok (conj src_mcp_validate_pinned_ok (conj src_mcp_write_pinned_ok src_cli_main_pinned_ok))))). Qed.
